@@ -452,7 +452,9 @@ func (e *OpEngine) checkGradients(n *Node, c *Call, caseName, key, pos string, o
 			e.find("S1c.edges", key, "nil-gradfn", pos, "back edge without a gradient function")
 			continue
 		}
-		ckey := closureKey(fnv.Fn, role)
+		// keyed by OPERATION and operand role, not by the function the closure happens to be written in
+		ckey := fmt.Sprintf("%s.%s→operand%d", core.PkgGrad[len(core.ModPath)+1:], n.Method, role)
+		_ = closureKey
 		cpos := e.P.FuncPos(fnv.Fn)
 		e.Closures[core.FuncKey(fnv.Fn)] = true
 		e.ClosureRuns++
@@ -750,6 +752,25 @@ func (e *OpEngine) numericCompare(got, want sym.Expr, dims []sym.Poly) (int, str
 				return edges[leafHash(fmt.Sprintf("%s#%d", name, salt), idx)%uint64(len(edges))]
 			}
 		}
+		if trial%7 == 3 {
+			// tie point: every tensor has the same element at the same position, so that thin conditions INSIDE the
+			// formulas ([|p-t| <= τ] under a sum) hold somewhere in the sample
+			inner := env.Leaf
+			env.Leaf = func(name string, idx []int64) float64 { return inner("·", idx) }
+		}
+		if trial%7 == 5 {
+			// near-tie point: same position, elements of different tensors differ by less than the tolerance
+			inner := env.Leaf
+			order := map[string]int{}
+			env.Leaf = func(name string, idx []int64) float64 {
+				k, ok := order[name]
+				if !ok {
+					k = len(order)
+					order[name] = k
+				}
+				return inner("·", idx) + float64(k)*0.3e-9
+			}
+		}
 		for k, v := range mdl {
 			env.Ints[k] = v
 		}
@@ -789,6 +810,11 @@ func (e *OpEngine) numericCompare(got, want sym.Expr, dims []sym.Poly) (int, str
 				// for compound formulas an overflow of the real-number form proves nothing
 				if math.IsInf(b, 0) && finA && err1 == nil && sym.SingleTermNoInverse(want) && e.realCondsHold(env) {
 					return 1, fmt.Sprintf("at %s index %v%s: code formula gives %.6g, the definition overflows to %v", sym.ModelString(mdl), pos, symsString(env), a, b)
+				}
+				// … and where a plain scalar function is undefined (NaN: a fractional power of a negative base, the
+				// logarithm of a negative number) a finite code output is a different function
+				if math.IsNaN(b) && finA && err1 == nil && err2 == nil && sym.SingleTermNoInverse(want) && sym.SingleTermNoInverse(got) && e.realCondsHold(env) {
+					return 1, fmt.Sprintf("at %s index %v%s: code formula gives %.6g where the defined scalar function is NaN", sym.ModelString(mdl), pos, symsString(env), a)
 				}
 				err2 = fmt.Errorf("definition non-finite at an edge point")
 			}
